@@ -124,6 +124,9 @@ def drive(tier):
                 c = r.choice("qpzry9x8gf2tvdw0s3jn54khce6mua7l123456789ABCDEFGHJKLMNPQRSTUVWXYZ!")
                 k += 1
                 parse(tid, k, base[:i] + c + base[i + 1:])
+            for t in gen.confuse(base, r, 3) + gen.confuse(base.upper(), r, 2):
+                k += 1
+                parse(tid, k, t)
             k += 1
             parse(tid, k, base.upper())
             k += 1
